@@ -11,14 +11,25 @@ open SqlLineage Ast Holder Graph
 /-- `SqlFluffColumn.of(column_reference | identifier)` for a column‑list entry: `Column(column.raw, …)` -/
 def listColumn (raw : String) : Column := Column.mk1 (Ident.escapeS raw) none
 
+/-- `holder.graph.remove_nodes_from(holder.write_columns)` (create_insert.py, fix D8; absent nodes are skipped silently) -/
+def removeWriteColumns (g : LGraph) : LGraph :=
+  (writeColumns g).foldl (fun g n => if g.hasNode n then g.removeNode n else g) g
+
+/-- the holder when the create/insert extractor reaches the query: target, the provider's columns of the target (INSERT
+    only, create_insert.py:104‑116), then the explicit column list, which REPLACES the write columns present so far
+    (create_insert.py:70‑90, fix D8) -/
+def writeTargetHolder (env : Env) (isInsert : Bool) (tgt : List String) (cols : Option (List String)) : LGraph :=
+  let t := mkTable env tgt none
+  let g := addWriteO Graph.empty t
+  let g := if isInsert && env.prov.truthy then addWriteColumns g (provColumns env.prov t.d t.printed) else g
+  match cols with
+  | some cs => addWriteColumns (removeWriteColumns g) (cs.map listColumn)
+  | none => g
+
 /-- `CreateInsertExtractor.extract` for INSERT … query / CTAS / CREATE VIEW (extractors/create_insert.py:28‑126) -/
 def exWriteQuery (env : Env) (isInsert : Bool) (tgt : List String) (cols : Option (List String)) (q : Query) :
     Except Err LGraph :=
-  let t := mkTable env tgt none
-  let g := addWriteO Graph.empty t
-  -- target columns from the provider, INSERT only (create_insert.py:104‑116)
-  let g := if isInsert && env.prov.truthy then addWriteColumns g (provColumns env.prov t.d t.printed) else g
-  let g := match cols with | some cs => addWriteColumns g (cs.map listColumn) | none => g
+  let g := writeTargetHolder env isInsert tgt cols
   match exQuery env (ctxOf g) q with
   | .ok h => .ok (g.compose h)
   | .error e => .error e
@@ -143,11 +154,7 @@ def analyze (env : Env) (silent : Bool) (s : Stmt) : Except Err LGraph :=
     | .insert _ _ tgt cols q _ => exWriteQuery env true tgt cols q
     | .ctas tgt _ _ q _ => exWriteQuery env false tgt none q
     | .createView tgt _ cols q => exWriteQuery env false tgt cols q
-    | .insertValues tgt cols _ =>
-      let t := mkTable env tgt none
-      let g := addWriteO Graph.empty t
-      let g := if env.prov.truthy then addWriteColumns g (provColumns env.prov t.d t.printed) else g
-      .ok (match cols with | some cs => addWriteColumns g (cs.map listColumn) | none => g)
+    | .insertValues tgt cols _ => .ok (writeTargetHolder env true tgt cols)
     | .createTable tgt _ cols =>
       let g := addWriteO Graph.empty (mkTable env tgt none)
       .ok (addWriteColumns g (cols.map (fun c => listColumn c.1)))
